@@ -1,6 +1,7 @@
 (* C11 -- sockets are safe for concurrent use: the lock discipline part.  Statements only.
    The per-run obligation C11_gen_guarded instantiates these on the skeleton regenerated from the current source. *)
 From MV Require Import Model.RaceCfg Proofs.RaceSound.
+From MV Require Model.RaceCfg Model.SplitCs Proofs.SplitCsSound.
 From MV Require Import Model.LockOrder Proofs.LockOrderProofs.
 Open Scope N_scope.
 
@@ -65,3 +66,14 @@ Theorem C11_lock_order_no_cycle : forall ncl edges, order_ok ncl edges = true ->
   forall a n, walk (strict_edges edges) a a n -> (n <= S ncl)%nat -> False.
 Proof. exact order_ok_no_cycle. Qed.
 Print Assumptions C11_lock_order_no_cycle.
+
+(* ---- check-then-act (Model/SplitCs.v): the generated obligation C11_gen_check_then_act evaluates sp_all_ok on the
+   regenerated lock skeleton; what that establishes, for every function that is not a constructor and EVERY path
+   through it: no field is written under a mutex on the strength of a reading made in an earlier critical section
+   (of the same call, same loop round) unless the function reads it again first or had written it itself there. ---- *)
+Theorem C11_check_then_act_all_paths : forall top prog E, SplitCs.sp_all_ok top prog E = true ->
+  forall i f, nth_error prog i = Some f -> RaceCfg.rctor f = false ->
+  forall p, SplitCsSound.sp_valid f 0 p = true ->
+  SplitCsSound.sp_path f 0 (SplitCs.s0 (RaceCfg.entry_of top E (N.of_nat i))) p = [].
+Proof. exact SplitCsSound.sp_all_sound. Qed.
+Print Assumptions C11_check_then_act_all_paths.
